@@ -120,7 +120,7 @@ theorem py_fields (f : DForm) (y m d : Nat) (hv : dateOk y m d) (hf : FormOk f y
     have hw := pyWeek_spec y m d ⟨v3, v4⟩ ⟨v5, v6⟩ ⟨v1, v2⟩ (Cal.isoCalendar y m d).2.1.toNat (Cal.isoCalendar y m d).2.2.toNat
       (by omega) (by omega)
     simp only [pyGroupsOf, pyDateFields]
-    rw [if_neg (by cases e <;> simp), if_neg (by cases e <;> simp), e1, hw]
+    rw [if_neg (by cases e <;> simp), if_neg (by cases e <;> simp), if_neg (by cases e <;> simp), e1, hw]
 
 /-- result of `parse_iso8601` (python) once the regex match is known: date only -/
 theorem pyParse_of_match_date (cs : List Char) (hP : cs.head? ≠ some 'P') (hnl : '\n' ∉ cs) (G : PyD)
